@@ -28,7 +28,7 @@ func init() {
 		Trusted: []string{"Go semantics of closures and calls", "go/ssa construction (x/tools v0.29.0)"},
 		Run: func(c *Ctx) {
 			s := newSeqRT(c)
-			c.guard("SEQ.GEN", s.ruleGen)
+			c.guard("SEQ.GEN", s.ruleGenHist)
 			c.guard("SEQ.START", func() { s.ruleStart() })
 			c.guard("SEQ.TAKE", s.ruleSuspend)
 		},
